@@ -17,6 +17,8 @@ DOC = {
     'numpy.random.shuffle': 'np.random.shuffle(x): in-place application of an ARBITRARY permutation (havoc)',
     'numpy.random.randint': 'np.random.randint(lo,hi,size=m): ANY integer array of length m with lo <= entries < hi (havoc)',
     'numpy.array': 'np.array(list): same elements',
+    'numpy.array(dtype=float)': 'np.array / np.asarray(x, dtype=float): same values (entries are mathematical reals here; rounding of the '
+                                'conversion is not modelled)',
     'os.path.join': 'os.path.join of relative separator-free segments = segments joined by /',
     'os.path.normpath': 'normpath is the identity on relative, already normalised paths (BIDS precondition)',
     'os.path.basename': 'basename = last /-separated segment',
@@ -307,6 +309,12 @@ def install(E):
     L['numpy.any'] = np_any
 
     def np_array(E, x, *a, **kw):
+        dt = kw.get('dtype') if set(kw) == {'dtype'} else None
+        if isinstance(dt, FuncV) and dt.kind == 'builtin' and dt.name == 'float' and not a:
+            # conversion to float64: array entries are mathematical reals in this encoding (stated assumption), so the
+            # conversion is the identity on values; what it does to integer / float32 typed data is the bounded tier's concern
+            E.used_lib.add('numpy.array(dtype=float)')
+            kw = {}
         if isinstance(x, RangeV) and not a and not kw:
             x = E.as_seq(x)
         if isinstance(x, SeqV) and not a and not kw and x.items is None and x.elem is not None:
